@@ -237,3 +237,30 @@ class Check:
               json.dumps({k: v for k, v in c.items() if isinstance(v, (int, float, bool))})))
         sys.stdout.flush()
         return 1 if self.violations else 0
+
+
+def run_fixed_schedule(cmd, env, cwd=None, ok=(0,), setup=(2,), tries=3, timeout=120):
+    """Run a fixed-schedule harness (a real-kernel schedule arranged with sleeps and /proc polling).  Such a program can fail to ARRANGE its schedule on
+    a busy machine; that is not a verdict.  Returns ('ok' | 'violation' | 'not_reached', last CompletedProcess-like).  A violation is reported only if
+    every one of `tries` runs ends with a violation status (a real defect under a fixed schedule fails every time); one clean run decides 'ok'."""
+    import subprocess
+    last = None
+    seen = []
+    for _ in range(tries):
+        try:
+            rv = sh(cmd, env=env, cwd=cwd, timeout=timeout)
+        except subprocess.TimeoutExpired:
+            class T:
+                returncode, stdout, stderr = -999, b'', b'timed out'
+            rv = T()
+        last = rv
+        if rv.returncode in ok:
+            return 'ok', rv
+        seen.append('setup' if (rv.returncode in setup or rv.returncode == -999) else 'violation')
+        if seen[-1] == 'violation' and len([x for x in seen if x == 'violation']) >= tries:
+            break
+    if seen and all(x == 'violation' for x in seen) and len(seen) >= tries:
+        return 'violation', last
+    if 'violation' in seen and 'setup' not in seen:
+        return 'violation', last
+    return 'not_reached', last
